@@ -1,1 +1,13 @@
-From PdfV Require Import Base.Prelude.
+From PdfV Require Import Base.Prelude Base.DecProofs Gen.Generated Lex.Lexer Lex.StrLexer Lex.LexProofs Lex.StrProofs
+  Syn.Prim Syn.Utf8 Syn.Parser Syn.Serialize Syn.Spells Syn.ParserProofs Syn.NameProofs Syn.RenderProofs Syn.SerProofs Properties.C04.
+Check C04_ser_spells : forall v, storable v ->
+  exists core, ser v = Ok (core ++ trail v) /\ spells v (items_of v) /\
+    forall tl, boundary tl -> renders (items_of v) (core ++ trail v ++ tl) (trail v ++ tl).
+Check C04_roundtrip : forall v, storable v -> vdepth v <= MAX_DEPTH ->
+  forall R cx tl, boundary tl ->
+  exists core, ser v = Ok (core ++ trail v) /\
+    (follow_ok [] (mkLx (lenN core) (trail v ++ tl)) -> nostream_at [] (mkLx (lenN core) (trail v ++ tl)) ->
+     parse_ctx R cx F_ANY MAX_DEPTH (mkLx 0 ((core ++ trail v) ++ tl)) = Ok (v, mkLx (lenN core) (trail v ++ tl))).
+Check C04_roundtrip_eof : forall v, storable v -> vdepth v <= MAX_DEPTH -> forall R,
+  exists b, ser v = Ok b /\ parse R F_ANY b = Ok v.
+Check C04_ser_no_panic : forall v s, ser v <> Panic s.
